@@ -20,7 +20,7 @@ def run_vector(w, i, v):
     sub = v['sub']
     line = {'id': i, 'kind': 'comm', 'cls': v['u']['name'], 'sub': sub, 'asn4': True, 'ref': list(v['u']['o']), 'refmsg': list(ref_msg),
             'text': '', 'decoded': False, 'status': 0, 'bin': [], 'accepted': False, 'text2_same': False, 'wire': [], 'sent_ok': False,
-            'diff': '', 'exc': 0}
+            'diff': '', 'exc': 0, 'comma_same': True}
     try:
         d = Update.parse(0, ref_msg[19:], True)
         txt = d['attr'].get(sub) if d.get('attr') else None
@@ -54,6 +54,20 @@ def run_vector(w, i, v):
             line['diff'] = 're-decoded %r' % (d2['attr'].get(sub),)
     except Exception as e:
         line['diff'] = 're-decode raised %r' % (e,)
+    # the REST layer also accepts several values of one kind as a comma list ("route-target:1:1,2:2"): it must mean the same
+    keys = set(t.split(':', 1)[0] for t in txt)
+    if len(txt) >= 2 and len(keys) == 1 and list(keys)[0] in ('route-target', 'route-origin', 'dmzlink-bw'):
+        joined = list(keys)[0] + ':' + ','.join(t.split(':', 1)[1] for t in txt)
+        rj = w.rest('POST', 'json_to_bin', body={'attr': {'1': 0, '2': [[2, [65001]]], '3': '10.0.0.1', str(sub): [joined]}, 'nlri': ['192.168.7.0/24']})
+        line['comma_same'] = (rj.get('json') or {}).get('bin') == js['bin']
+        if not line['comma_same']:
+            line['diff'] = 'comma list %r gives %r' % (joined, (rj.get('json') or {}).get('bin'))
+        w.observe()
+        rs = w.rest('POST', 'send/update', body={'attr': {'1': 0, '2': [[2, [65001]]], '3': '10.0.0.1', str(sub): [joined]}, 'nlri': ['192.168.7.0/24']})
+        o = w.observe()
+        if b''.join(x['raw'] for x in o['out']) != b:
+            line['comma_same'] = False
+            line['diff'] = 'comma list %r: send/update wrote other octets' % (joined,)
     # the same request through send/update must put exactly these octets on the wire
     w.observe()
     r2 = w.rest('POST', 'send/update', body=body)
